@@ -245,11 +245,15 @@ class Server:
           in the servlet will eventually see the sentinel and exit.
         - Wait for the servlet and all helper threads to exit.
         """
-        self.servlet.stop()
-        self._gather_thread.join()
         if self._onboard_thread is not None:
+            # Send the sentinel through the onboarding buffer so that it reaches
+            # the servlet after all the inputs already accepted; otherwise, once the
+            # workers have exited, the onboarding thread could block forever
+            # putting leftover (abandoned) inputs into the full pipe.
             self._input_buffer.put(None)
             self._onboard_thread.join()
+        self.servlet.stop()
+        self._gather_thread.join()
 
     def call(self, x, /, *, timeout: int | float = 60, backpressure: bool = True):
         """
@@ -520,6 +524,10 @@ class AsyncServer:
         return self
 
     async def __aexit__(self, *args):
+        if self._onboard_thread is not None:
+            # See `Server.__exit__`.
+            self._input_buffer.put(None)
+            self._onboard_thread.join()
         self.servlet.stop()
         self._gather_thread.join()
 
@@ -537,10 +545,6 @@ class AsyncServer:
                     await asyncio.wait_for(pipenotfull.wait(), 0.01)
                 except asyncio.TimeoutError:
                     pass
-
-        if self._onboard_thread is not None:
-            self._input_buffer.put(None)
-            self._onboard_thread.join()
 
     async def call(self, x, /, *, timeout: int | float = 60, backpressure: bool = True):
         """
